@@ -1,5 +1,27 @@
-import PyAirtouch.Model.Sock
-/-! placeholder until the proof files are merged -/
+import PyAirtouch.Lemmas.SockQueue
+/-!
+# C01 — what reaches the wire
+
+For every history of the model `PyAirtouch.Model.Sock` whose sends carry pairwise distinct
+identities: every frame written to a transport is a whole frame of a message that was accepted
+before.
+-/
 namespace PyAirtouch.Props.C01
-theorem C01_placeholder : True := trivial
+open PyAirtouch.Model.Sock PyAirtouch.Spec.Trace PyAirtouch.Lemmas.Sock
+
+theorem C01_wire_only_submitted {s : Sys} : ReachableWF s → wireOnlySubmitted s.core.trace = true := by
+  intro h
+  obtain ⟨u, hinv⟩ := inv_of_reachableWF h
+  simp only [wireOnlySubmitted, List.all_eq_true]
+  intro ev hev
+  have hw : WriteOk s.core.trace ev := hinv.writes ev hev
+  cases ev <;> simp only [WriteOk] at hw ⊢
+  all_goals
+    obtain ⟨t0, e, r, ok, h1, h2⟩ := hw
+    simp [h1]
+
+/-- a message queued while the link is down is written once the connection is up -/
+example : ∃ s, ReachableWF s ∧ wireCount s.core.trace 1 = 1 :=
+  ⟨_, ⟨[.apiOpen, .apiSend 1 2 240 true, .run 1 .go, .run 1 .openOk, .run 1 .go], by decide, rfl⟩, by decide⟩
+
 end PyAirtouch.Props.C01
